@@ -373,6 +373,11 @@ def clauses():
                "reference; non-trivial = length >= 2 with a hardened component",
                gen=lambda tier: st.fixed_dictionaries({"path": paths(), "marks": MARKS, "root": st.sampled_from(["m", "M"]),
                                                        "seed": S.seeds(16, 64), "seed2": S.seeds(16, 64), "testnet": st.booleans()}),
+               enum=lambda tier: [{"path": p, "marks": [False], "root": r, "seed": bytes(range(16)), "seed2": bytes(range(1, 17)),
+                                   "testnet": False}
+                                  for r in ("m", "M") for p in ([], [0], [0, 0], [0, 0, 0, 0, 0], [H], [H, 0], [0, H], [1], [H - 1],
+                                                                [2 ** 32 - 1], [0, 0, 0, 0, 1], [1, 0, 0, 0, 0])],
+               enum_desc="12 corner paths (all-zero, single component, boundary indexes) x 2 roots",
                nontrivial=lambda c: len(c["path"]) >= 2 and any(i >= H for i in c["path"]),
                classes=lambda c: ["len=%d" % len(c["path"])],
                n={"quick": 500, "thorough": 25000}, shards={"quick": 16, "thorough": 16}),
